@@ -420,7 +420,22 @@ pub fn families(prop: &str, tier: Tier) -> Vec<Cfg> {
             d.max_conns = 2;
             d.max_reqs = 0;
             d.dev = if q { 1 } else { 2 };
-            vec![a, b, c, d]
+            // the broker's PUBREL in each of its legal forms (short, reason 0x92, explicit property length), identifiers
+            // reused after their release
+            let mut e = Cfg::base("C04-pubrel-in-every-legal-form");
+            e.props = vec!["C04"];
+            e.ops = vec![OpK::Poll, OpK::Recv, OpK::DropConn];
+            e.io = IoMenu::benign();
+            e.io.write_pending = true;
+            e.cancel = true;
+            e.broker.pubrel_forms = true;
+            e.broker.script = vec![inpub(2, 9), inpub(2, 10), inpub(1, 9)];
+            e.broker.dup_retransmit = true;
+            e.max_ops = if q { 8 } else { 10 };
+            e.max_conns = 2;
+            e.max_reqs = 0;
+            e.dev = if q { 1 } else { 2 };
+            vec![a, b, c, d, e]
         }
         "C05" => {
             let mut a = Cfg::base("C05-handshake-variants");
@@ -446,10 +461,24 @@ pub fn families(prop: &str, tier: Tier) -> Vec<Cfg> {
             n.io = IoMenu::benign();
             n.broker.may_lose_session = true;
             n.broker.assigned_id = vec![None, Some("assigned-by-broker")];
+            n.broker.connack_extras = vec![0, 1, 2];
             n.max_ops = if q { 7 } else { 8 };
             n.max_conns = if q { 3 } else { 4 };
             n.max_reqs = 2;
             n.dev = 0;
+            // CONNACKs carrying every further legal property (session expiry 0 / max, capability flags, topic alias
+            // maximum, reason string, user properties, response information, server reference)
+            let mut x = Cfg::base("C05-connack-with-further-legal-properties");
+            x.props = vec!["C05"];
+            x.ops = vec![OpK::Pub1, OpK::Pub2, OpK::Sub, OpK::Poll, OpK::DropConn];
+            x.io = IoMenu::benign();
+            x.broker.may_lose_session = true;
+            x.broker.connack_extras = vec![0, 1, 2, 3, 4, 5, 6];
+            x.rx = 128;
+            x.max_ops = if q { 6 } else { 8 };
+            x.max_conns = if q { 3 } else { 4 };
+            x.max_reqs = 2;
+            x.dev = 0;
             let mut r = Cfg::base("C05-rich-packets-large-connect");
             r.must_reach = vec!["CONNECT of more than 127 bytes", "fresh broker session while requests were in flight", "replay of several packets on a resumed connection"];
             r.props = vec!["C05"];
@@ -475,9 +504,9 @@ pub fn families(prop: &str, tier: Tier) -> Vec<Cfg> {
                 b.family = "C05-handshake-variants-four-connections";
                 b.dev = 1;
                 a.max_conns = 3;
-                return vec![a, b, r, n];
+                return vec![a, b, r, n, x];
             }
-            vec![a, r, n]
+            vec![a, r, n, x]
         }
         "C06" => {
             let mut v = Vec::new();
